@@ -34,8 +34,13 @@ func Range(start, end, step int) SortedInts {
 	}
 
 	if end < start {
-		start, end = end, start
-		step = -step
+		//step is negative so the elements are start > start + step > ... > end. Fill them in from the back.
+		n := (start - end - step - 1) / (-step)
+		tmp := make([]int, n)
+		for i := 0; i < n; i++ {
+			tmp[n-1-i] = start + i*step
+		}
+		return tmp
 	}
 
 	tmp := make([]int, 0, (end-start+step-1)/step)
